@@ -244,7 +244,7 @@ def get_pedal_type_from_value(value, evaluate_name=None) -> Type:
             if element_type is not None:
                 return container_type(False, element_type)
             else:
-                return container_type(False, get_pedal_type_from_value(value[0], evaluate_name))
+                return container_type(False, get_pedal_type_from_value(next(iter(value)), evaluate_name))
         else:
             return container_type(True)
     if isinstance(value, dict):
